@@ -25,6 +25,7 @@ CLAIMS = {
  "C17": ("model_checking", "Kernels executed from the real SSA with symbolic byte strings: K1 escape/unescape/parse agree with RFC 6901 for all keys and pointers within the length bounds; K2 dereferenceJSONPointer on a maximal schema (first segment every field name, second segment symbolic) returns exactly the subschema RFC 6901 designates, else an error; K3 percent-encoded pointers to every location of a maximal document resolve end to end and validate against the designated subschema for every instance.", "§6 C17"),
  "C16": ("model_checking", "Tag-parsing clause only: fieldJSONInfo (real SSA) vs encoding/json's own parseTag/isValidTag/tagOptions.Contains (real SSA of the standard library) on symbolic tag values: same omit decision, same name, same optionality on every path, each path class replayed against the real encoding/json. The clauses that quantify over Go types alone (fresh tree, determinism, cycles, pruning) run as a concrete scaffold over a declared type family and are reported, not solver-decided.", "§6 C16"),
  "C19": ("model_checking", "Real SSA of orderedProperties.MarshalJSON and basicChecks with symbolic property presence, symbolic PropertyOrder sequences (duplicates, absent names) and every map iteration order: emitted key sequence = listed-and-present names in list order then the rest ascending; duplicates rejected.", "§6 C19"),
+ "C05": ("model_checking", "Behavioural equivalence of a schema and its JSON round trip decided for all instances of the template: both are resolved natively, imported, and the real Validate runs on both with one symbolic instance per path (schema documents of both drafts; Go-constructed Schema values with each exported field nil / empty / null constant / populated / nested, alone and in pairs). Kernels from the real SSA: integer.UnmarshalJSON against the 'integral and within int32' specification with encoding/json's number parsing as a contract stub; the struct+map splice and true/false folding of Schema.MarshalJSON with json.Marshal as a contract stub. Byte-identity of the second marshal and keyword survival are native scaffold observations.", "§6 C05"),
 }
 
 ALL = [f"C{i:02d}" for i in range(1, 21)]
